@@ -128,8 +128,8 @@ theorem bondDec_requires (s s' : St) (a : Addr) (amt : Nat) (h : apply s (.bondD
 theorem unbond_requires (s s' : St) (a : Addr) (h : apply s (.unbond a) = .ok s') :
     ∃ q r, getSeq s a = some q ∧ getRa s q.rollapp = some r ∧
       ((r.proposer = some a ∧
-          getSeq s' a = some { q with optedIn := false, notice := some (s.t + s.p.noticePeriod) } ∧
-          s'.nq = insertSorted ltPair (s.t + s.p.noticePeriod, a) s.nq ∧
+          getSeq s' a = some { q with optedIn := false, notice := some (s.t + s.sqp.noticePeriod) } ∧
+          s'.nq = insertSorted ltPair (s.t + s.sqp.noticePeriod, a) s.nq ∧
           s'.bal = s.bal ∧ s'.modBal = s.modBal ∧ s'.burned = s.burned ∧ s'.ras = s.ras ∧ s'.seqH = s.seqH ∧
           (∀ b, b ≠ a → getSeq s' b = getSeq s b) ∧
           forkLatestAllowed r = true ∧ noticeInProgress q s.t = false ∧ awaitingLast s r = false) ∨
@@ -161,13 +161,13 @@ theorem unbond_requires (s s' : St) (a : Addr) (h : apply s (.unbond a) = .ok s'
             · rename_i hnip
               injection h with h; subst h
               left
-              have hg0 : getSeq { s with nq := insertSorted ltPair (s.t + s.p.noticePeriod, a) s.nq } q.addr = some q := by
+              have hg0 : getSeq { s with nq := insertSorted ltPair (s.t + s.sqp.noticePeriod, a) s.nq } q.addr = some q := by
                 rw [hqa]; exact hg
               refine ⟨hpa, ?_, rfl, rfl, rfl, rfl, rfl, rfl, ?_, by simpa using hfl, by simpa using hnip, ?_⟩
               · rw [← hqa]
-                exact getSeq_setSeq_self (q := { q with optedIn := false, notice := some (s.t + s.p.noticePeriod) }) hg0
+                exact getSeq_setSeq_self (q := { q with optedIn := false, notice := some (s.t + s.sqp.noticePeriod) }) hg0
               · intro b hb
-                rw [getSeq_setSeq_other (show ({ q with optedIn := false, notice := some (s.t + s.p.noticePeriod) } : Seq).addr ≠ b by
+                rw [getSeq_setSeq_other (show ({ q with optedIn := false, notice := some (s.t + s.sqp.noticePeriod) } : Seq).addr ≠ b by
                   show q.addr ≠ b; rw [hqa]; exact Ne.symm hb)]
                 rfl
               · have : ¬ (awaitingLast s r = true ∧ (isProposer s q = true ∨ isSuccessor s q = true)) := by
@@ -292,7 +292,7 @@ theorem liable_blocks (s : St) (a : Addr) (hl : s.seqH.any (·.1 == a) = true) :
     (∀ amt, ∃ e, apply s (.bondDec a amt) = .error e) ∧
     (∀ s', apply s (.unbond a) = .ok s' → ∃ q r, getSeq s a = some q ∧ getRa s q.rollapp = some r ∧
       r.proposer = some a ∧ s'.bal = s.bal ∧ s'.modBal = s.modBal ∧
-      getSeq s' a = some { q with optedIn := false, notice := some (s.t + s.p.noticePeriod) }) := by
+      getSeq s' a = some { q with optedIn := false, notice := some (s.t + s.sqp.noticePeriod) }) := by
   constructor
   · intro amt
     cases h : apply s (.bondDec a amt) with
@@ -358,37 +358,37 @@ theorem withdraw_blocked_while_liable (p : Params) (ops : List Op) (a : Addr) (h
     finalization failures): a sequencer record that is different afterwards belongs to the PROPOSER of
     a rollapp whose liveness event height equals the current hub height, and the new record is the
     old one after exactly one liveness slash (`slashOnce`: bond minus `livSlashAmt`, dishonor plus the
-    liveness penalty).  Sequencers that propose for no rollapp, proposers of rollapps whose event is
+    liveness penalty, both with the x/sequencer parameters in force `(run p ops).sqp`).  Sequencers that propose for no rollapp, proposers of rollapps whose event is
     not due, and everything finalization does, leave every other record untouched. -/
 theorem end_changes_only_due_proposers (p : Params) (ops : List Op) (f : List (Nat × Nat)) (a : Addr) (q q' : Seq)
     (hq : getSeq (run p ops) a = some q) (hq' : getSeq (step (run p ops) (.end_ f)).1 a = some q')
     (hne : q' ≠ q) :
     ∃ ra r, getRa (run p ops) ra = some r ∧ r.proposer = some a ∧ r.evH = (run p ops).h ∧
-      q' = slashOnce p q := by
-  have := endBlock_changed_record (f := f) (run_lev p ops) (run_cust p ops) (run_own p ops)
+      q' = slashOnce (run p ops).sqp q :=
+  endBlock_changed_record (f := f) (run_lev p ops) (run_cust p ops) (run_own p ops)
     (run_grid p ops).hpos hq hq' hne
-  rw [LevNs.run_p] at this
-  exact this
 
 /-- **end_decrease_is_liveness_slash** — the `end_` kind of `C06.bond_decreases_only_by`, tied to the
     liveness schedule (C08): along every run, a bond that is lower after a block end than before it
     belongs to the proposer of a rollapp whose liveness event was due at that height
     (`r.evH = hub height`, equivalently `(height, rollapp)` is queued — `C08.event_fires_iff`), the
     record is the old one after one `slashOnce`, and the decrease is exactly
-    `livSlashAmt p q.tokens = min(bond, max(LivenessSlashMinAbsolute, ⌊LivenessSlashMinMultiplier · bond⌋))`.
+    `livSlashAmt sp q.tokens = min(bond, max(LivenessSlashMinAbsolute, ⌊LivenessSlashMinMultiplier · bond⌋))`
+    for `sp = (run p ops).sqp`, the x/sequencer parameters IN FORCE at that block end (the history may
+    contain any number of `MsgUpdateParams`).
     Conversely `C08.end_at_event_height_slashes` / `C08.end_before_event_height_does_not` say that
     such a proposer IS slashed and no other proposer is. -/
 theorem end_decrease_is_liveness_slash (p : Params) (ops : List Op) (f : List (Nat × Nat)) (a : Addr) (q q' : Seq)
     (hq : getSeq (run p ops) a = some q) (hq' : getSeq (step (run p ops) (.end_ f)).1 a = some q')
     (hlt : q'.tokens < q.tokens) :
     ∃ ra r, getRa (run p ops) ra = some r ∧ r.proposer = some a ∧ r.evH = (run p ops).h ∧
-      q' = slashOnce p q ∧ q.tokens - q'.tokens = livSlashAmt p q.tokens := by
+      q' = slashOnce (run p ops).sqp q ∧ q.tokens - q'.tokens = livSlashAmt (run p ops).sqp q.tokens := by
   obtain ⟨ra, r, hg, hp, hev, hs⟩ := end_changes_only_due_proposers p ops f a q q' hq hq'
     (by intro e; rw [e] at hlt; omega)
   refine ⟨ra, r, hg, hp, hev, hs, ?_⟩
-  have hle := livSlashAmt_le p q.tokens
+  have hle := livSlashAmt_le (run p ops).sqp q.tokens
   rw [hs]
-  show q.tokens - (q.tokens - livSlashAmt p q.tokens) = livSlashAmt p q.tokens
+  show q.tokens - (q.tokens - livSlashAmt (run p ops).sqp q.tokens) = livSlashAmt (run p ops).sqp q.tokens
   omega
 
 /-- **bond_decrease_conditions_run** — the conditions behind the kinds of `C06.bond_decreases_only_by_run`,
@@ -398,7 +398,8 @@ theorem end_decrease_is_liveness_slash (p : Params) (ops : List Op) (f : List (N
       proposer, not successor, no unfinalized height on record, refunded to its own address, remainder
       zero-and-unbonded or at least the minimum bond;
     * if `o` is a block end (kind 3), `a` is the proposer of a rollapp whose liveness event height is the
-      current hub height, and the decrease is exactly one liveness slash `livSlashAmt p q.tokens`.
+      current hub height, and the decrease is exactly one liveness slash `livSlashAmt (run p ops).sqp q.tokens`
+      (parameters in force).
 
     (`C06.bond_decreases_only_by_run` says that `o` IS of one of the listed kinds — the remaining kind,
     a punishment naming `a`, has no pre-condition on `a` at all — and gives the money flow of each.) -/
@@ -407,7 +408,7 @@ theorem bond_decrease_conditions_run (p : Params) (ops : List Op) (o : Op) (a : 
     ((o = .unbond a ∨ ∃ amt, o = .bondDec a amt) →
       ∃ r, Paid (run p ops) (run p (ops ++ [o])) a (q.tokens - q'.tokens) q q' r) ∧
     (∀ f, o = .end_ f → ∃ ra r, getRa (run p ops) ra = some r ∧ r.proposer = some a ∧ r.evH = (run p ops).h ∧
-      q' = slashOnce p q ∧ q.tokens - q'.tokens = livSlashAmt p q.tokens) := by
+      q' = slashOnce (run p ops).sqp q ∧ q.tokens - q'.tokens = livSlashAmt (run p ops).sqp q.tokens) := by
   have hr : run p (ops ++ [o]) = (step (run p ops) o).1 := by
     unfold run; rw [List.foldl_append]; rfl
   constructor
@@ -465,6 +466,6 @@ example : (getBal exProp.bal 1, getBal exProp'.bal 1, exProp.modBal, exProp'.mod
 def exDue : St := run C06.exLive (C06.exPre ++ [.begin_ 1])
 def exDue' : St := (step exDue (.end_ [])).1
 example : ((getRa exDue 0).map (·.evH), exDue.h, (getSeq exDue 1).map (·.tokens), (getSeq exDue' 1).map (·.tokens),
-      (getSeq exDue' 2) == (getSeq exDue 2), livSlashAmt C06.exLive 10) = (some 2, 2, some 10, some 7, true, 3) := by decide
+      (getSeq exDue' 2) == (getSeq exDue 2), livSlashAmt C06.exLive.seq 10) = (some 2, 2, some 10, some 7, true, 3) := by decide
 
 end DymVerif.C06X
